@@ -1,5 +1,5 @@
 (* Proofs about the ConcurrentQueue model (C18). *)
-From Util Require Import Common.Base Common.ListLemmas Conc.Model.
+From Util Require Import Common.Base Common.ListLemmas Conc.Model Conc.Spec.
 
 (* ------------------------------------------------------------------ *)
 (* upd *)
@@ -69,6 +69,34 @@ Qed.
 Lemma cnt_snoc {A} (P : A -> bool) l r : cnt P (l ++ [r]) = cnt P l + b2n (P r).
 Proof. rewrite cnt_app, cnt_cons, cnt_nil. lia. Qed.
 
+(* weighted sums over a table *)
+Definition sumw {A} (w : A -> nat) (l : list A) : nat := fold_right (fun x acc => w x + acc) 0 l.
+
+Lemma sumw_snoc {A} (w : A -> nat) l r : sumw w (l ++ [r]) = sumw w l + w r.
+Proof. induction l as [|h t IH]; cbn [sumw fold_right app]; [lia|]. fold (sumw w (t ++ [r])). fold (sumw w t). lia. Qed.
+
+Lemma sumw_set_nth {A} (w : A -> nat) l k v d : k < length l ->
+  sumw w (set_nth l k v) + w (nth k l d) = sumw w l + w v.
+Proof.
+  revert k. induction l as [|h t IH]; intros k Hk; cbn [length] in Hk; [lia|].
+  destruct k; cbn [set_nth nth sumw fold_right]; [lia|]. fold (sumw w (set_nth t k v)). fold (sumw w t).
+  specialize (IH k ltac:(lia)). lia.
+Qed.
+
+Lemma sumw_upd {A} (w : A -> nat) l k f d : k < length l ->
+  sumw w (upd l k f) + w (nth k l d) = sumw w l + w (f (nth k l d)).
+Proof. intros H. rewrite (upd_in l k f d H). now apply sumw_set_nth. Qed.
+
+Lemma sumw_upd_same {A} (w : A -> nat) l k f : (forall r, w (f r) = w r) -> sumw w (upd l k f) = sumw w l.
+Proof.
+  intros HP. destruct (Nat.lt_ge_cases k (length l)) as [H|H]; [|now rewrite upd_oob].
+  destruct l as [|d l0]; [simpl in H; lia|].
+  pose proof (sumw_upd w (d :: l0) k f d H) as E. rewrite HP in E. lia.
+Qed.
+
+(* jobs inside their function, counted from the entry / return counters *)
+Definition jw (r : jrec) : nat := ent r - fin r.
+
 (* ------------------------------------------------------------------ *)
 (* the job-table invariant *)
 Record Core (s : st) : Prop := {
@@ -80,7 +108,8 @@ Record Core (s : st) : Prop := {
   c_le : (0 < limit s)%Z -> (Z.of_nat (running s) <= limit s)%Z;
   c_full : queue s <> [] -> (0 < limit s)%Z /\ Z.of_nat (running s) = limit s;
   c_fifo : limit s = 1%Z -> entl s ++ queue s = seq 0 (length (jobs s));
-  c_log : forall j, count_occ Nat.eq_dec (entl s) j = ent (nth j (jobs s) jd) }.
+  c_log : forall j, count_occ Nat.eq_dec (entl s) j = ent (nth j (jobs s) jd);
+  c_sum : sumw jw (jobs s) = cnt in_user (jobs s) }.
 
 Lemma core_empty lim : Core (empty lim).
 Proof.
@@ -129,6 +158,7 @@ Proof.
       * destruct (Nat.eqb_spec j (length (jobs s))); lia.
       * rewrite nth_overflow in E by exact H. cbn [ent jd] in E.
         destruct (Nat.eqb_spec j (length (jobs s))); cbn [ent jd]; lia.
+    + rewrite sumw_snoc, cnt_snoc, (c_sum s C). unfold jw. cbn [ent fin in_user wk b2n]. lia.
   - (* queue *)
     apply orb_false_iff in ESP as [H1 H2]. apply Z.leb_gt in H1. apply Z.ltb_ge in H2.
     pose proof (c_le s C H1) as Hle.
@@ -154,6 +184,7 @@ Proof.
       destruct (Nat.ltb_spec j (length (jobs s))) as [H|H]; [exact E|].
       rewrite nth_overflow in E by exact H. cbn [ent jd] in E.
       destruct (Nat.eqb_spec j (length (jobs s))); cbn [ent jd]; lia.
+    + rewrite sumw_snoc, cnt_snoc, (c_sum s C). unfold jw. cbn [ent fin in_user wk b2n]. lia.
 Qed.
 
 Lemma core_iter n s : Core s -> Core (Nat.iter n enq1 s).
@@ -226,6 +257,19 @@ Proof.
   - congruence.
   - intros Hl. pose proof (c_fifo s C Hl) as E. now rewrite Hq in E.
   - intros j. destruct (Hnth j) as [-> _]. exact (c_log s C j).
+  - rewrite (sumw_upd_same jw _ w (setwk WExit) (fun r => eq_refl)).
+    pose proof (cnt_upd in_user (jobs s) w (setwk WExit) jd Hw) as EU. cbn [in_user setwk wk] in EU.
+    assert (HwU : in_user (nth w (jobs s) jd) = false) by (unfold in_user; now rewrite G).
+    rewrite HwU in EU. cbn [b2n] in EU. rewrite (c_sum s C). lia.
+Qed.
+
+Lemma nth_setwk_fields l w p j :
+  ent (nth j (upd l w (setwk p)) jd) = ent (nth j l jd) /\ fin (nth j (upd l w (setwk p)) jd) = fin (nth j l jd).
+Proof.
+  destruct (Nat.lt_ge_cases w (length l)) as [Hw|Hw]; [|now rewrite upd_oob].
+  destruct (Nat.eq_dec j w) as [->|Hne].
+  - rewrite nth_upd_same by exact Hw. split; reflexivity.
+  - rewrite nth_upd_other by exact Hne. split; reflexivity.
 Qed.
 
 Lemma nth_pop_fields l w p h j : w < length l -> h < length l ->
@@ -274,6 +318,20 @@ Proof.
   - intros Hl. rewrite <- app_assoc. cbn [app]. rewrite <- Hq. exact (c_fifo s C Hl).
   - intros j. destruct (nth_pop_fields (jobs s) w (WRun h) h j Hw Hh) as [-> _].
     rewrite count_occ_snoc, (c_log s C j). destruct (Nat.eqb_spec j h); lia.
+  - pose proof (Hcnt in_user (fun r => eq_refl)) as EU. cbn [in_user setwk wk] in EU.
+    assert (HwU : in_user (nth w (jobs s) jd) = false) by (unfold in_user; now rewrite G).
+    rewrite HwU in EU. cbn [b2n] in EU.
+    pose proof (sumw_upd jw (upd (jobs s) w (setwk (WRun h))) h bump_ent jd) as ES.
+    rewrite upd_length in ES. specialize (ES Hh).
+    rewrite (sumw_upd_same jw _ w (setwk (WRun h)) (fun r => eq_refl)) in ES.
+    destruct (nth_setwk_fields (jobs s) w (WRun h) h) as [E1 E2].
+    pose proof (c_once s C h Hh) as Eo. rewrite Hq in Eo. cbn [count_occ] in Eo.
+    destruct (Nat.eq_dec h h) as [_|Hnn]; [|congruence].
+    pose proof (c_run s C h) as Er.
+    assert (Eold : jw (nth h (upd (jobs s) w (setwk (WRun h))) jd) = 0) by (unfold jw; rewrite E1, E2; lia).
+    assert (Enew : jw (bump_ent (nth h (upd (jobs s) w (setwk (WRun h))) jd)) = 1)
+      by (unfold jw; cbn [bump_ent ent fin]; rewrite E1, E2; lia).
+    rewrite Eold, Enew, (c_sum s C) in ES. lia.
 Qed.
 
 Lemma runs_pos_in_range s w j : Core s -> wk (nth w (jobs s) jd) = WRun j ->
@@ -307,7 +365,7 @@ Qed.
 Lemma core_jobdone s w j0 : Core s -> wk (nth w (jobs s) jd) = WRun j0 ->
   Core (with_jobs s (upd (upd (jobs s) w (setwk WGate)) j0 bump_fin)).
 Proof.
-  intros C G. destruct (runs_pos_in_range s w j0 C G) as (Hw & Hj0 & _ & _).
+  intros C G. destruct (runs_pos_in_range s w j0 C G) as (Hw & Hj0 & Hf0 & He0).
   assert (Hcnt : forall P : jrec -> bool, (forall r, P (bump_fin r) = P r) ->
                    cnt P (upd (upd (jobs s) w (setwk WGate)) j0 bump_fin) + b2n (P (nth w (jobs s) jd))
                    = cnt P (jobs s) + b2n (P (setwk WGate (nth w (jobs s) jd)))).
@@ -328,12 +386,23 @@ Proof.
   - exact (c_full s C).
   - exact (c_fifo s C).
   - intros j. destruct (nth_done_fields (jobs s) w WGate j0 j Hw Hj0) as [-> _]. exact (c_log s C j).
+  - pose proof (Hcnt in_user (fun r => eq_refl)) as EU. cbn [in_user setwk wk] in EU.
+    assert (HwU : in_user (nth w (jobs s) jd) = true) by (unfold in_user; now rewrite G).
+    rewrite HwU in EU. cbn [b2n] in EU.
+    pose proof (sumw_upd jw (upd (jobs s) w (setwk WGate)) j0 bump_fin jd) as ES.
+    rewrite upd_length in ES. specialize (ES Hj0).
+    rewrite (sumw_upd_same jw _ w (setwk WGate) (fun r => eq_refl)) in ES.
+    destruct (nth_setwk_fields (jobs s) w WGate j0) as [E1 E2].
+    assert (Eold : jw (nth j0 (upd (jobs s) w (setwk WGate)) jd) = 1) by (unfold jw; rewrite E1, E2; lia).
+    assert (Enew : jw (bump_fin (nth j0 (upd (jobs s) w (setwk WGate)) jd)) = 0)
+      by (unfold jw; cbn [bump_fin ent fin]; rewrite E1, E2; lia).
+    rewrite Eold, Enew, (c_sum s C) in ES. lia.
 Qed.
 
 Lemma core_with_acts s l : Core s -> Core (with_acts s l).
-Proof. intros [H1 H2 H3 H4 H5 H6 H7 H8 H9]. constructor; assumption. Qed.
+Proof. intros [H1 H2 H3 H4 H5 H6 H7 H8 H9 H10]. constructor; assumption. Qed.
 Lemma core_with_b_acts s b' l : Core s -> Core (with_b_acts s b' l).
-Proof. intros [H1 H2 H3 H4 H5 H6 H7 H8 H9]. constructor; assumption. Qed.
+Proof. intros [H1 H2 H3 H4 H5 H6 H7 H8 H9 H10]. constructor; assumption. Qed.
 
 (* ------------------------------------------------------------------ *)
 (* the invariant of the API actors *)
@@ -744,3 +813,400 @@ Qed.
 
 Theorem size_is_queue_length lim ninit es : let s := run lim ninit es in size s = length (queue s).
 Proof. cbn. exact (c_size _ (proj1 (run_inv lim ninit es))). Qed.
+
+(* ------------------------------------------------------------------ *)
+(* the monitors accept the model's own observations *)
+
+(* parsing the observation vector *)
+Lemma triples_untriple l : triples (flat_map untriple l) = l.
+Proof. induction l as [|[[x y] z] t IH]; [reflexivity|]. cbn [flat_map untriple app t1 t2 t3 fst snd triples]. now rewrite IH. Qed.
+
+Lemma flat_untriple_length l : length (flat_map untriple l) = 3 * length l.
+Proof. induction l as [|h t IH]; [reflexivity|]. cbn [flat_map length]. rewrite app_length, IH. cbn [untriple length]. lia. Qed.
+
+Lemma flat_map_map' {A B C} (g : A -> B) (f : B -> list C) l : flat_map f (map g l) = flat_map (fun x => f (g x)) l.
+Proof. induction l as [|h t IH]; [reflexivity|]. cbn [map flat_map]. now rewrite IH. Qed.
+
+Lemma firstn_app_exact {A} (l r : list A) : firstn (length l) (l ++ r) = l.
+Proof. induction l as [|h t IH]; cbn [length app firstn]; [now destruct r | now rewrite IH]. Qed.
+Lemma skipn_app_exact {A} (l r : list A) : skipn (length l) (l ++ r) = r.
+Proof. induction l as [|h t IH]; cbn [length app skipn]; [reflexivity | exact IH]. Qed.
+
+Lemma mon_obs m e s :
+  mon m e (obs s) = ({| mlim := mlim m; mkinds := kinds_after m e; mnj := length (jobs s) |},
+                     clauses (mlim m) (kinds_after m e) (map atrip (acts s)) (map jtrip (jobs s))).
+Proof.
+  unfold mon, obs. cbn [app]. rewrite !Nat2N.id.
+  change (flat_map code_actor (acts s)) with (flat_map (fun x => untriple (atrip x)) (acts s)).
+  change (flat_map code_job (jobs s)) with (flat_map (fun x => untriple (jtrip x)) (jobs s)).
+  rewrite <- (flat_map_map' atrip untriple), <- (flat_map_map' jtrip untriple).
+  assert (E : 3 * length (acts s) = length (flat_map untriple (map atrip (acts s))))
+    by (now rewrite flat_untriple_length, map_length).
+  rewrite E, firstn_app_exact, skipn_app_exact, !triples_untriple. reflexivity.
+Qed.
+
+Definition kind_of (x : actor) : N * nat :=
+  match pc x with
+  | PGate _ | PRet _ _ => (1%N, 0)
+  | IGate n0 | IWait n0 _ | IRet n0 _ => (2%N, n0)
+  | _ => (3%N, 0)
+  end.
+Definition kinds (s : st) : list (N * nat) := map kind_of (acts s).
+
+(* no blocked WaitIdle has a closed wait channel (true after settle) *)
+Definition Settled (s : st) : Prop :=
+  forall a x n0 ch, nth_error (acts s) a = Some x -> pc x = IWait n0 ch -> closed (b s) ch = false.
+
+Lemma forallb_map' {A B} (f : B -> bool) (g : A -> B) l : forallb f (map g l) = forallb (fun x => f (g x)) l.
+Proof. induction l as [|h t IH]; [reflexivity|]. cbn [map forallb]. now rewrite IH. Qed.
+
+Lemma combine_map {A B C} (f : A -> B) (g : A -> C) l : combine (map f l) (map g l) = map (fun x => (f x, g x)) l.
+Proof. induction l as [|h t IH]; [reflexivity|]. cbn [map combine]. now rewrite IH. Qed.
+
+Lemma exec_of_sum l : exec_of (map jtrip l) = N.of_nat (sumw jw l).
+Proof.
+  induction l as [|r t IH]; [reflexivity|]. cbn [map exec_of fold_right sumw].
+  fold (exec_of (map jtrip t)). fold (sumw jw t). rewrite IH. unfold jtrip, jw, t1, t2. cbn [fst snd]. lia.
+Qed.
+
+Lemma cl1_ok s : Core s -> cl1 (limit s) (map jtrip (jobs s)) = true.
+Proof.
+  intros C. unfold cl1. rewrite exec_of_sum, (c_sum s C). destruct (Z.ltb_spec 0 (limit s)) as [Hpos|]; [|reflexivity].
+  apply Z.leb_le. pose proof (c_le s C Hpos) as Hle.
+  assert (Hu : cnt in_user (jobs s) <= cnt wactive (jobs s)).
+  { apply cnt_le. intros r. unfold in_user, wactive. destruct (wk r); auto. }
+  rewrite <- (c_running s C) in Hu. rewrite nat_N_Z. lia.
+Qed.
+
+Lemma cl2_ok s : Core s -> cl2 (map jtrip (jobs s)) = true.
+Proof.
+  intros C. unfold cl2. rewrite forallb_map'. apply forallb_forall. intros r Hr.
+  destruct (In_nth _ _ jd Hr) as [j [_ Hj]]. pose proof (ent_le_1 s j C) as Hle. rewrite Hj in Hle.
+  apply N.leb_le. unfold jtrip, t1. cbn [fst]. lia.
+Qed.
+
+Lemma quiet_facts s : quiet_of (map atrip (acts s)) (map jtrip (jobs s)) = true ->
+  (forall x, In x (acts s) -> at_gate x = false) /\ (forall r, In r (jobs s) -> at_wgate r = false).
+Proof.
+  unfold quiet_of. rewrite !forallb_map'. intros H. apply andb_true_iff in H as [H1 H2].
+  rewrite forallb_forall in H1, H2. split.
+  - intros x Hx. specialize (H1 x Hx). unfold atrip, t1, at_gate in *. destruct (pc x); try reflexivity; cbn in H1; discriminate.
+  - intros r Hr. specialize (H2 r Hr). unfold jtrip, t3, at_wgate in *. cbn [snd] in H2. destruct (wk r); try reflexivity; cbn in H2; discriminate.
+Qed.
+
+Lemma drained s : Core s -> (forall r, In r (jobs s) -> at_wgate r = false) -> cnt in_user (jobs s) = 0 ->
+  queue s = [] /\ running s = 0 /\ size s = 0.
+Proof.
+  intros C Hg Hu.
+  assert (Hr : running s = 0).
+  { rewrite (c_running s C). apply cnt_zero_forall. intros r Hr.
+    pose proof (Hg r Hr) as H1. pose proof (proj1 (cnt_zero_forall _ _) Hu r Hr) as H2.
+    unfold at_wgate, in_user, wactive in *. destruct (wk r); auto. }
+  assert (Hq : queue s = []).
+  { destruct (queue s) as [|h t] eqn:E; [reflexivity|exfalso].
+    destruct (c_full s C) as [Hpos Heq]; [rewrite E; discriminate|]. lia. }
+  split; [exact Hq|]. split; [exact Hr|]. now rewrite (c_size s C), Hq.
+Qed.
+
+Lemma cl3_ok s : Core s -> cl3 (map atrip (acts s)) (map jtrip (jobs s)) = true.
+Proof.
+  intros C. unfold cl3.
+  destruct (quiet_of (map atrip (acts s)) (map jtrip (jobs s)) && N.eqb (exec_of (map jtrip (jobs s))) 0) eqn:E; [|reflexivity].
+  apply andb_true_iff in E as [Hq He]. destruct (quiet_facts s Hq) as [_ Hg].
+  apply N.eqb_eq in He. rewrite exec_of_sum, (c_sum s C) in He.
+  assert (Hu : cnt in_user (jobs s) = 0) by lia.
+  destruct (drained s C Hg Hu) as (Hqe & _ & _).
+  rewrite forallb_map'. apply forallb_forall. intros r Hr.
+  destruct (In_nth _ _ jd Hr) as [j [Hj Hn]]. pose proof (c_once s C j Hj) as Eo. rewrite Hqe, Hn in Eo. cbn [count_occ] in Eo.
+  apply N.eqb_eq. unfold jtrip, t1. cbn [fst]. lia.
+Qed.
+
+Lemma prefix_closed_char l :
+  (forall i j, i < j -> nth j l false = true -> nth i l false = true) -> prefix_closed l = true.
+Proof.
+  induction l as [|[|] t IH]; intros H; cbn [prefix_closed].
+  - reflexivity.
+  - apply IH. intros i j Hij Hj. apply (H (S i) (S j)); [lia | exact Hj].
+  - apply forallb_forall. intros x Hx. destruct x; [exfalso | reflexivity].
+    destruct (In_nth _ _ false Hx) as [k [_ Hk]]. specialize (H 0 (S k) ltac:(lia) Hk). discriminate.
+Qed.
+
+Lemma app_seq_order (l1 l2 : list nat) : forall a n x y, l1 ++ l2 = seq a n -> In x l1 -> In y l2 -> x < y.
+Proof.
+  induction l1 as [|h t IH]; intros a n x y E Hx Hy; [destruct Hx|].
+  destruct n as [|n]; [discriminate|]. cbn [app seq] in E. inversion E as [[E1 E2]]. destruct Hx as [<-|Hx].
+  - assert (Hin : In y (seq (S a) n)) by (rewrite <- E2; apply in_or_app; now right).
+    apply in_seq in Hin. lia.
+  - exact (IH _ _ _ _ E2 Hx Hy).
+Qed.
+
+Lemma cl4_ok s : Core s -> cl4 (limit s) (map jtrip (jobs s)) = true.
+Proof.
+  intros C. unfold cl4. destruct (Z.eqb_spec (limit s) 1) as [Hl|]; [|reflexivity].
+  apply prefix_closed_char. rewrite map_map.
+  assert (Hn : forall k, nth k (map (fun r => N.leb 1 (t1 (jtrip r))) (jobs s)) false = true -> 1 <= ent (nth k (jobs s) jd)).
+  { intros k Hk. change false with ((fun r => N.leb 1 (t1 (jtrip r))) jd) in Hk. rewrite map_nth in Hk.
+    apply N.leb_le in Hk. unfold jtrip, t1 in Hk. cbn [fst] in Hk. lia. }
+  intros i j Hij Hj. apply Hn in Hj.
+  change false with ((fun r => N.leb 1 (t1 (jtrip r))) jd). rewrite map_nth. apply N.leb_le. unfold jtrip, t1. cbn [fst].
+  assert (Hjl : j < length (jobs s)).
+  { destruct (Nat.lt_ge_cases j (length (jobs s))) as [H|H]; [exact H|]. rewrite nth_overflow in Hj by exact H. cbn in Hj. lia. }
+  destruct (ent (nth i (jobs s) jd)) as [|e] eqn:Ei; [exfalso | lia].
+  pose proof (c_once s C i ltac:(lia)) as Eo. rewrite Ei in Eo.
+  assert (Hiq : In i (queue s)) by (apply (count_occ_In Nat.eq_dec); lia).
+  assert (Hje : In j (entl s)) by (apply (count_occ_In Nat.eq_dec); rewrite (c_log s C j); lia).
+  pose proof (app_seq_order _ _ _ _ _ _ (c_fifo s C Hl) Hje Hiq). lia.
+Qed.
+
+Lemma cl5_ok s : Inv s -> cl5 (limit s) (map atrip (acts s)) = true.
+Proof.
+  intros [C [_ HW]]. unfold cl5. destruct (Z.ltb_spec 0 (limit s)) as [Hpos|]; [|reflexivity].
+  rewrite forallb_map'. apply forallb_forall. intros x Hx. destruct (In_nth_error _ _ Hx) as [a Ha].
+  specialize (HW a x Ha). unfold atrip, t1, t2, t3. destruct (pc x) as [n|q r|n0|n0 ch|n0 r| |ch q r|ch|r]; cbn [fst snd]; try reflexivity.
+  - cbn [N.eqb Pos.eqb orb]. destruct (N.ltb_spec 0 (N.of_nat q)) as [Hq|]; [|reflexivity].
+    apply Z.eqb_eq. rewrite nat_N_Z. cbn [apc_ok] in HW. apply HW. lia.
+  - destruct r; reflexivity.
+  - cbn [N.eqb Pos.eqb orb]. destruct (N.ltb_spec 0 (N.of_nat q)) as [Hq|]; [|reflexivity].
+    apply Z.eqb_eq. rewrite nat_N_Z. cbn [apc_ok] in HW. apply HW. lia.
+  - destruct r; reflexivity.
+Qed.
+
+Lemma In_firstn_nth {A} (d : A) n : forall l r, In r (firstn n l) -> exists j, j < n /\ nth j l d = r.
+Proof.
+  induction n as [|n IH]; intros l r H; [destruct H|]. destruct l as [|h t]; [destruct H|].
+  cbn [firstn] in H. destruct H as [<-|H].
+  - exists 0. split; [lia | reflexivity].
+  - destruct (IH t r H) as [j [Hj Hn]]. exists (S j). split; [lia | exact Hn].
+Qed.
+
+Lemma cl6_ok s : Inv s -> cl6 (combine (kinds s) (map atrip (acts s))) (map jtrip (jobs s)) = true.
+Proof.
+  intros [C [_ HW]]. unfold cl6, kinds. rewrite combine_map, forallb_map'. apply forallb_forall. intros x Hx.
+  destruct (In_nth_error _ _ Hx) as [a Ha]. specialize (HW a x Ha). cbn [fst snd].
+  unfold kind_of, atrip, t1. destruct (pc x) as [n|q r|n0|n0 ch|n0 r| |ch q r|ch|r]; cbn [fst snd]; try reflexivity.
+  destruct r; try reflexivity. cbn [code_res N.eqb Pos.eqb andb]. cbn [apc_ok] in HW.
+  rewrite firstn_map, forallb_map'. apply forallb_forall. intros r Hr.
+  destruct (In_firstn_nth jd _ _ _ Hr) as [j [Hj Hn]]. specialize (HW j Hj). rewrite Hn in HW.
+  apply N.leb_le. unfold jtrip, t2. cbn [fst snd]. lia.
+Qed.
+
+Lemma cl7_ok s : Inv s -> Settled s -> cl7 (combine (kinds s) (map atrip (acts s))) (map atrip (acts s)) (map jtrip (jobs s)) = true.
+Proof.
+  intros [C [_ HW]] HS. unfold cl7.
+  destruct (quiet_of (map atrip (acts s)) (map jtrip (jobs s)) && allfin_of (map jtrip (jobs s))) eqn:E; [|reflexivity].
+  apply andb_true_iff in E as [Hq Hf]. destruct (quiet_facts s Hq) as [_ Hg].
+  unfold allfin_of in Hf. rewrite forallb_map', forallb_forall in Hf.
+  assert (Hu : cnt in_user (jobs s) = 0).
+  { apply cnt_zero_forall. intros r Hr. unfold in_user. destruct (wk r) as [|j'| |] eqn:Ew; try reflexivity. exfalso.
+    destruct (In_nth _ _ jd Hr) as [w [_ Hn]]. rewrite <- Hn in Ew.
+    destruct (runs_pos_in_range s w j' C Ew) as (_ & Hj' & Hf0 & _).
+    specialize (Hf (nth j' (jobs s) jd) (nth_In _ _ Hj')). apply N.leb_le in Hf. unfold jtrip, t2 in Hf. cbn [fst snd] in Hf. lia. }
+  destruct (drained s C Hg Hu) as (_ & Hr0 & Hs0).
+  unfold kinds. rewrite combine_map, forallb_map'. apply forallb_forall. intros x Hx.
+  destruct (In_nth_error _ _ Hx) as [a Ha]. specialize (HW a x Ha). cbn [fst snd].
+  unfold kind_of, atrip, t1. destruct (pc x) as [n|q r|n0|n0 ch|n0 r| |ch q r|ch|r] eqn:Ep; cbn [fst snd]; try reflexivity.
+  - exfalso. cbn [apc_ok] in HW. destruct HW as (_ & _ & [Hc|Hi]).
+    + rewrite (HS a x n0 ch Ha Ep) in Hc. discriminate.
+    + unfold idle in Hi. rewrite Hr0, Hs0 in Hi. discriminate.
+  - destruct r; reflexivity.
+Qed.
+
+Theorem clauses_ok s : Inv s -> Settled s ->
+  clauses (limit s) (kinds s) (map atrip (acts s)) (map jtrip (jobs s)) = [].
+Proof.
+  intros HI HS. unfold clauses.
+  rewrite (cl1_ok s (proj1 HI)), (cl2_ok s (proj1 HI)), (cl3_ok s (proj1 HI)), (cl4_ok s (proj1 HI)),
+          (cl5_ok s HI), (cl6_ok s HI), (cl7_ok s HI HS). reflexivity.
+Qed.
+
+(* ---- the kind of an actor never changes; calls append one actor ---- *)
+Lemma set_nth_same {A} (l : list A) k v : nth_error l k = Some v -> set_nth l k v = l.
+Proof.
+  revert k. induction l as [|h t IH]; intros [|k] H; cbn [nth_error set_nth] in *; try discriminate.
+  - now inversion H.
+  - f_equal. now apply IH.
+Qed.
+
+Lemma map_set_nth {A B} (g : A -> B) l k v : map g (set_nth l k v) = set_nth (map g l) k (g v).
+Proof. revert k. induction l as [|h t IH]; intros [|k]; cbn [set_nth map]; try reflexivity. now rewrite IH. Qed.
+
+Lemma map_upd_at {A B} (g : A -> B) l k f :
+  (forall x, nth_error l k = Some x -> g (f x) = g x) -> map g (upd l k f) = map g l.
+Proof.
+  intros H. unfold upd. destruct (nth_error l k) as [x|] eqn:G; [|reflexivity].
+  rewrite map_set_nth, (H x eq_refl). apply set_nth_same. now rewrite nth_error_map, G.
+Qed.
+
+Definition newkind (s : st) (e : ev) : list (N * nat) :=
+  match e with
+  | CallEnq _ => [(1%N, 0)]
+  | CallIdle _ => [(2%N, length (jobs s))]
+  | CallWatch _ => [(3%N, 0)]
+  | _ => []
+  end.
+
+Ltac kinds_upd G Ep :=
+  unfold kinds; cbn [with_acts with_b_acts acts]; rewrite ?acts_iter; apply map_upd_at;
+  let y := fresh "y" in let Hy := fresh "Hy" in
+  intros y Hy; rewrite G in Hy; inversion Hy; subst y; unfold kind_of; cbn [setpc pc]; rewrite Ep; reflexivity.
+
+Lemma step_kinds s e : kinds (step s e) = kinds s ++ newkind s e.
+Proof.
+  destruct e as [n|he|hascb|a|w|w|a o|a|a|a|a v|a|a]; cbn [step newkind]; rewrite ?app_nil_r.
+  - unfold kinds. cbn [with_acts acts]. now rewrite map_app.
+  - unfold kinds. cbn [with_acts acts]. now rewrite map_app.
+  - unfold kinds. cbn [with_acts acts]. rewrite map_app. now destruct hascb.
+  - destruct (nth_error (acts s) a) as [x|] eqn:G; [|reflexivity].
+    destruct (pc x) as [n|q r|n0|n0 ch|n0 r| |ch q r|ch|r] eqn:Ep; try reflexivity.
+    + kinds_upd G Ep.
+    + destruct (idle s); [kinds_upd G Ep|]. destruct (getch (b s)) as [b' ch]. kinds_upd G Ep.
+    + destruct (getch (b s)) as [b' ch]. kinds_upd G Ep.
+  - destruct (wk (nth w (jobs s) jd)); try reflexivity. destruct (queue s); reflexivity.
+  - destruct (wk (nth w (jobs s) jd)); reflexivity.
+  - destruct (nth_error (acts s) a) as [x|] eqn:G; [|reflexivity].
+    destruct (pc x) as [n|q r|n0|n0 ch|n0 r| |ch q r|ch|r] eqn:Ep; try reflexivity.
+    unfold kinds; cbn [with_acts acts]. apply map_upd_at. intros y Hy. rewrite G in Hy. inversion Hy; subst y.
+    unfold kind_of. cbn [setpc pc]. rewrite Ep. destruct o as [|[|o]]; reflexivity.
+  - destruct (nth_error (acts s) a) as [x|] eqn:G; [|reflexivity].
+    destruct (pc x) as [n|q r|n0|n0 ch|n0 r| |ch q r|ch|r] eqn:Ep; try reflexivity.
+    + destruct (closed (b s) ch); [kinds_upd G Ep | reflexivity].
+    + destruct (closed (b s) ch); [kinds_upd G Ep | reflexivity].
+  - unfold kinds; cbn [with_acts acts]. apply map_upd_at. intros y _. reflexivity.
+  - destruct (nth_error (acts s) a) as [x|] eqn:G; [|reflexivity].
+    destruct (canc x); [|reflexivity].
+    destruct (pc x) as [n|q r|n0|n0 ch|n0 r| |ch q r|ch|r] eqn:Ep; try reflexivity; kinds_upd G Ep.
+  - unfold kinds; cbn [with_acts acts]. apply map_upd_at. intros y _. destruct (ehas y && negb (eclosed y)); reflexivity.
+  - unfold kinds; cbn [with_acts acts]. apply map_upd_at. intros y _. destruct (ehas y); reflexivity.
+  - destruct (nth_error (acts s) a) as [x|] eqn:G; [|reflexivity].
+    destruct (pc x) as [n|q r|n0|n0 ch|n0 r| |ch q r|ch|r] eqn:Ep; try reflexivity.
+    destruct (ebuf x) as [|v t]; [destruct (eclosed x); [kinds_upd G Ep | reflexivity]|].
+    unfold kinds; cbn [with_acts acts]. apply map_upd_at. intros y Hy. rewrite G in Hy. inversion Hy; subst y.
+    unfold kind_of. cbn [pc]. rewrite Ep. destruct v; reflexivity.
+Qed.
+
+Lemma wakes_kinds l : forall s, kinds (fold_left (fun s a => step s (Wake a)) l s) = kinds s.
+Proof. induction l as [|a l IH]; intros s; cbn [fold_left]; [reflexivity|]. rewrite IH, step_kinds. cbn [newkind]. apply app_nil_r. Qed.
+Lemma wakes_inv l : forall s, Inv s -> Inv (fold_left (fun s a => step s (Wake a)) l s).
+Proof. induction l as [|a l IH]; intros s H; cbn [fold_left]; [exact H|]. apply IH. now apply step_inv. Qed.
+Lemma wakes_limit l : forall s, limit (fold_left (fun s a => step s (Wake a)) l s) = limit s.
+Proof. induction l as [|a l IH]; intros s; cbn [fold_left]; [reflexivity|]. now rewrite IH, step_limit. Qed.
+
+Lemma after_kinds s a : kinds (after s a) = kinds s.
+Proof. unfold after. rewrite !step_kinds. cbn [newkind]. now rewrite !app_nil_r. Qed.
+Lemma after_inv s a : Inv s -> Inv (after s a).
+Proof. intros H. unfold after. now repeat apply step_inv. Qed.
+Lemma after_limit s a : limit (after s a) = limit s.
+Proof. unfold after. now rewrite !step_limit. Qed.
+
+(* settle leaves no blocked actor behind whose wait channel is closed *)
+Lemma wake_facts s a : let s' := step s (Wake a) in
+  b s' = b s /\ length (acts s') = length (acts s) /\
+  (forall k, k <> a -> nth_error (acts s') k = nth_error (acts s) k) /\
+  (forall x n0 ch, nth_error (acts s') a = Some x -> pc x = IWait n0 ch -> closed (b s) ch = false).
+Proof.
+  cbn [step]. destruct (nth_error (acts s) a) as [x|] eqn:G.
+  2:{ repeat split; auto. intros x n0 ch H. congruence. }
+  assert (Hsame : b s = b s /\ length (acts s) = length (acts s) /\
+                  (forall k, k <> a -> nth_error (acts s) k = nth_error (acts s) k) /\
+                  (forall y n0 ch, nth_error (acts s) a = Some y -> pc y = IWait n0 ch -> closed (b s) ch = false) \/ True) by (right; exact I).
+  destruct (pc x) as [n|q r|n0|n0 ch|n0 r| |ch q r|ch|r] eqn:Ep.
+  1-3,5-7,9: (repeat split; auto; intros y m c Hy Hp; assert (y = x) by congruence; subst y; congruence).
+  - destruct (closed (b s) ch) eqn:Ec.
+    + cbn [with_acts b acts]. rewrite upd_length. repeat split; auto.
+      * intros k Hk. unfold upd. rewrite G. now apply nth_error_set_nth_other.
+      * intros y m c Hy Hp. destruct (lookup_upd _ _ _ _ _ Hy) as [[Hne _]|[_ [z [Hz ->]]]]; [congruence|]. cbn [setpc pc] in Hp. discriminate.
+    + repeat split; auto. intros y m c Hy Hp. assert (y = x) by congruence. subst y. rewrite Ep in Hp. inversion Hp; subst. exact Ec.
+  - destruct (closed (b s) ch) eqn:Ec.
+    + cbn [with_acts b acts]. rewrite upd_length. repeat split; auto.
+      * intros k Hk. unfold upd. rewrite G. now apply nth_error_set_nth_other.
+      * intros y m c Hy Hp. destruct (lookup_upd _ _ _ _ _ Hy) as [[Hne _]|[_ [z [Hz ->]]]]; [congruence|]. cbn [setpc pc] in Hp. discriminate.
+    + repeat split; auto. intros y m c Hy Hp. assert (y = x) by congruence. subst y. congruence.
+Qed.
+
+Lemma wakes_settled len : forall start s,
+  (forall a x n0 ch, a < start -> nth_error (acts s) a = Some x -> pc x = IWait n0 ch -> closed (b s) ch = false) ->
+  let s' := fold_left (fun s a => step s (Wake a)) (seq start len) s in
+  b s' = b s /\ length (acts s') = length (acts s) /\
+  (forall a x n0 ch, a < start + len -> nth_error (acts s') a = Some x -> pc x = IWait n0 ch -> closed (b s') ch = false).
+Proof.
+  induction len as [|len IH]; intros start s H; cbn [seq fold_left].
+  - repeat split; auto. intros a x n0 ch Ha. apply H. lia.
+  - destruct (wake_facts s start) as (Hb & Hl & Ho & Hs).
+    specialize (IH (S start) (step s (Wake start))). cbn zeta in IH.
+    destruct IH as (Hb2 & Hl2 & H2).
+    + intros a x n0 ch Ha Hx Hp. rewrite Hb. destruct (Nat.eq_dec a start) as [->|Hne].
+      * eapply Hs; eauto.
+      * rewrite Ho in Hx by exact Hne. eapply H; eauto. lia.
+    + split; [congruence|]. split; [congruence|]. intros a x n0 ch Ha. apply H2. lia.
+Qed.
+
+Lemma settle_settled s : Settled (settle s).
+Proof.
+  unfold settle, Settled. destruct (wakes_settled (length (acts s)) 0 s) as (_ & Hl & H).
+  - intros a x n0 ch Ha. lia.
+  - intros a x n0 ch Hx Hp. eapply H; eauto. cbn. rewrite <- Hl. eapply nth_error_nth_len; eauto.
+Qed.
+
+Ltac inv_some H := match type of H with Some ?a = Some ?b => let E := fresh "E" in assert (E : b = a) by congruence; subst b; clear H end.
+
+Lemma hstep1_facts s h s1 : hstep1 s h = Some s1 -> Inv s ->
+  Inv s1 /\ limit s1 = limit s /\
+  kinds s1 = kinds s ++ match h with HEnq _ => [(1%N, 0)] | HIdle _ => [(2%N, length (jobs s))] | HWatch _ => [(3%N, 0)] | _ => [] end.
+Proof.
+  intros H HI. destruct h as [n|k|k|a|w|w|a o|a|a v|a]; unfold hstep1 in H.
+  - inv_some H. split; [now apply step_inv|]. split; [apply step_limit | apply step_kinds].
+  - inv_some H. split; [now apply step_inv|]. split; [apply step_limit | apply step_kinds].
+  - inv_some H. split; [now apply step_inv|]. split; [apply step_limit | apply step_kinds].
+  - destruct (nth_error (acts s) a) as [x|]; [|discriminate]. destruct (at_gate x); [|discriminate]. inv_some H.
+    split; [apply after_inv; now apply step_inv|]. split; [now rewrite after_limit, step_limit|].
+    rewrite after_kinds, step_kinds. reflexivity.
+  - destruct (at_wgate (nth w (jobs s) jd)); [|discriminate]. inv_some H.
+    split; [now apply step_inv|]. split; [apply step_limit | apply step_kinds].
+  - destruct (in_user (nth w (jobs s) jd)); [|discriminate]. inv_some H.
+    split; [now apply step_inv|]. split; [apply step_limit | apply step_kinds].
+  - destruct (nth_error (acts s) a) as [x|]; [|discriminate]. destruct (in_cb (pc x)); [|discriminate]. inv_some H.
+    split; [apply after_inv; now apply step_inv|]. split; [now rewrite after_limit, step_limit|].
+    rewrite after_kinds, step_kinds. reflexivity.
+  - destruct (nth_error (acts s) a) as [x|]; [|discriminate]. destruct (is_waiter (pc x)); [|discriminate]. inv_some H.
+    split; [now repeat apply step_inv|]. split; [now rewrite !step_limit|]. rewrite !step_kinds. cbn [newkind]. now rewrite !app_nil_r.
+  - destruct (nth_error (acts s) a) as [x|]; [|discriminate].
+    destruct (is_idle_call (pc x) && ehas x && negb (eclosed x)); [|discriminate]. inv_some H.
+    split; [now repeat apply step_inv|]. split; [now rewrite !step_limit|]. rewrite !step_kinds. cbn [newkind]. now rewrite !app_nil_r.
+  - destruct (nth_error (acts s) a) as [x|]; [|discriminate].
+    destruct (is_idle_call (pc x) && ehas x && negb (eclosed x)); [|discriminate]. inv_some H.
+    split; [now repeat apply step_inv|]. split; [now rewrite !step_limit|]. rewrite !step_kinds. cbn [newkind]. now rewrite !app_nil_r.
+Qed.
+
+(* monitor state vs model state *)
+Definition MS (m : mst) (s : st) : Prop := mlim m = limit s /\ mkinds m = kinds s /\ mnj m = length (jobs s).
+
+Lemma monitors_accept_model evs : forall i m rep s, Inv s -> MS m s ->
+  monitor mon i m rep evs (run_obs hstep s evs) = [].
+Proof.
+  induction evs as [|e evs IH]; intros i m rep s HI (M1 & M2 & M3); [reflexivity|].
+  cbn [run_obs]. destruct (hstep s e) as [[s' o]|] eqn:EH; [|reflexivity].
+  unfold hstep in EH. destruct (decode e) as [h|] eqn:ED; [|discriminate].
+  destruct (hstep1 s h) as [s1|] eqn:E1; [|discriminate]. cbn zeta in EH. inversion EH; subst s' o. clear EH.
+  destruct (hstep1_facts s h s1 E1 HI) as (HI1 & HL1 & HK1).
+  assert (HIs : Inv (settle s1)) by (apply wakes_inv; exact HI1).
+  assert (HKs : kinds (settle s1) = kinds_after m e).
+  { unfold settle. rewrite wakes_kinds, HK1. unfold kinds_after. rewrite ED, M2, M3. destruct h; rewrite ?app_nil_r; reflexivity. }
+  assert (HLs : limit (settle s1) = mlim m) by (unfold settle; rewrite wakes_limit; congruence).
+  cbn [monitor]. rewrite mon_obs. rewrite <- HKs, <- HLs, (clauses_ok _ HIs (settle_settled s1)).
+  cbn [filter map app]. apply IH; [exact HIs|]. split; [|split]; reflexivity.
+Qed.
+
+Lemma jobs_enq1_length s : length (jobs (enq1 s)) = S (length (jobs s)).
+Proof. unfold enq1. destruct (can_spawn s); cbn [jobs]; rewrite app_length; cbn [length]; lia. Qed.
+
+Lemma jobs_iter_length n s : length (jobs (Nat.iter n enq1 s)) = n + length (jobs s).
+Proof. induction n as [|n IH]; [reflexivity|]. change (Nat.iter (S n) enq1 s) with (enq1 (Nat.iter n enq1 s)). rewrite jobs_enq1_length, IH. lia. Qed.
+
+Theorem model_satisfies_monitors cfg evs :
+  monitor mon 0 (minit cfg) [] evs (run_obs hstep (hinit cfg) evs) = [].
+Proof.
+  apply monitors_accept_model; [apply init_inv|]. unfold MS, minit, hinit, kinds. cbn [mlim mkinds mnj].
+  pose proof (ext_iter (ninit_of cfg) (empty (lim_of cfg))) as X. fold (init (lim_of cfg) (ninit_of cfg)) in X.
+  split; [now rewrite (x_lim _ _ X)|]. split; [now rewrite (x_acts _ _ X)|].
+  unfold init. rewrite jobs_iter_length. cbn. lia.
+Qed.
